@@ -37,8 +37,7 @@ M4FLAGS := --prefix-builtin -I$(IFC) -I$(IFC)/C -I$(IFC)
 # all the interfaced domains configured in /repo (every one is generated)
 C20_ALL_DOMAINS := $(shell sed -n "s/^m4_define(.m4_interface_classes_names., .\([A-Za-z0-9_@]*\).)/\1/p" $(IFC)/ppl_interface_instantiations.m4 | tr '@' ' ')
 # the ones compiled into libppl_c.a (C20_DOMAINS=all compiles everything)
-C20_DOMAINS ?= Polyhedron Grid Rational_Box BD_Shape_mpq_class Octagonal_Shape_mpz_class \
-               Pointset_Powerset_C_Polyhedron Constraints_Product_C_Polyhedron_Grid
+C20_DOMAINS ?= all
 ifeq ($(C20_DOMAINS),all)
 override C20_DOMAINS := $(C20_ALL_DOMAINS)
 endif
